@@ -72,7 +72,7 @@ def run(ctx):
                 "encoding, metric, axis, slice, input); non-trivial = dataset has at least one missing cell")
     ctx.assumptions = ["encodings are those each format documents (text: -999, nan, non-numeric; NetCDF: fill/masked, -999, NaN, >1e30)",
                        "alphaindex and leps (recorded C05 findings) are compared with KnownFindings.tla's as-implemented operators on the same valid pairs",
-                       "probabilistic fields (pit, cdf, quantiles, ensemble) with missing values are covered by C08's end-to-end cases"]
+                       "probabilistic fields with missing values (cdf, ensemble members incl. all-missing ensembles, observations) use MC_Prob's generator"]
     fam = "C04Quick" if ctx.tier == "quick" else "C04"
     res = tlc.run("MC_Scoring", "MC_Scoring_" + fam, tag=ctx.pid + "_" + fam, timeout_s=1800)
     ctx.add_tlc("MC_Scoring/" + fam, res, {"Family": fam})
@@ -91,6 +91,10 @@ def run(ctx):
         ctx.evaluations += n
         for site, detail, rep in divs:
             ctx.diverge(site, rep, detail=detail)
+    # missing values in the probabilistic fields (cdf, quantiles, ensemble members, pit): the end-to-end cases of C08's generator
+    from harness.checks import c08
+    c08._run(ctx, "ens", "small", limit=(400 if ctx.tier == "quick" else None))
+    c08._run(ctx, "event", "full", limit=(300 if ctx.tier == "quick" else 3000))
     ctx.traces += len(jobs)
     for o, fmt, enc in jobs:
         if any("nan" in i["obs"] or "nan" in i["fcst"] for i in o["inputs"]):
